@@ -304,15 +304,18 @@ def gen_raman_cmp_case(rng):
 
 
 def gen_raman_pump_case(rng):
-    p = gen_raman_fiber(rng, L=rng.uniform(40, 120))
+    """counter (and co+counter) pumped spans on NON-UNIFORM solver grids: random length (never a multiple of the step),
+    coarse and fine steps, lumped losses off the grid"""
+    p = gen_raman_fiber(rng, L=rng.uniform(20, 130))
     pumps = [{'power': rng.uniform(0.05, 0.4), 'frequency': rng.uniform(203e12, 207e12),
               'propagation_direction': 'counterprop'} for _ in range(rng.choice([1, 2, 3]))]
-    if rng.random() < 0.35:
+    if rng.random() < 0.4:
         pumps.append({'power': rng.uniform(0.05, 0.2), 'frequency': rng.uniform(203e12, 207e12),
                       'propagation_direction': 'coprop'})
-    return {'kind': 'raman_pump', 'params': p, 'pumps': pumps, 'step': rng.choice([200.0, 100.0, 50.0]),
-            'n': rng.choice([4, 10, 20]), 'p': 10 ** rng.uniform(-4, -2.7), 'method': rng.choice(['perturbative', 'numerical']),
-            'order': rng.choice([1, 2, 4])}
+    step = rng.choice([10e3, 10e3, 5e3, 3333.0, 2e3, 1e3, 700.0, 200.0, 100.0])
+    return {'kind': 'raman_pump', 'params': p, 'pumps': pumps, 'step': step,
+            'res': rng.choice([10e3, step, 3 * step]), 'n': rng.choice([2, 4, 8, 16]), 'p': 10 ** rng.uniform(-6, -2.7),
+            'method': rng.choice(['perturbative', 'numerical']), 'order': rng.choice([1, 2, 4])}
 
 
 # ------------------------------------------------------------------ Gallina literals
@@ -394,6 +397,25 @@ def snap(si):
             'lat': np.array(si.latency, dtype=float).tolist()}
 
 
+def probe_ref_loss(fib):
+    """attenuation [dB] that the fibre object really applies to a single low-power channel at its reference frequency
+    (Raman off); None when the fibre cannot propagate that frequency (tables not covering it)"""
+    from gnpy.core.info import create_arbitrary_spectral_information
+    saved = (fib.pch_out_db, fib.propagated_labels, fib.ref_pch_in_dbm)
+    try:
+        si = create_arbitrary_spectral_information(np.array([float(fib.params.ref_frequency)]), slot_width=50e9, pch=1e-4,
+                                                   baud_rate=32e9, tx_osnr=40.0, tx_power=1e-4)
+        if fib.ref_pch_in_dbm is None:
+            fib.ref_pch_in_dbm = 0.0
+        pin = float(si.pch[0])
+        out = fib(si)
+        return 10 * math.log10(pin / float(out.pch[0]))
+    except Exception:
+        return None
+    finally:
+        fib.pch_out_db, fib.propagated_labels, fib.ref_pch_in_dbm = saved
+
+
 def drive_fiber(case):
     from gnpy.core.elements import Fiber
     obs = {}
@@ -408,6 +430,7 @@ def drive_fiber(case):
         obs['loss_prop'] = float(fib.loss)
     except Exception as e:
         obs['loss_prop'] = 'E:' + type(e).__name__
+    obs['ref_loss_applied'] = probe_ref_loss(fib)
     try:
         obs['own_cd'] = np.broadcast_to(fib.chromatic_dispersion(si.frequency), si.frequency.shape).astype(float).tolist()
     except Exception as e:
@@ -466,6 +489,12 @@ def oracle_fiber(ctx, case, obs):
         ctx.violation('budget', f"channel {i} ({spec['f'][i]:.6e} Hz) attenuated by {got:.9f} dB, budget "
                       f"att_in+con_in+L*alpha+lumped+con_out = {bud:.9f} dB", cs, observed_db=got, expected_db=bud,
                       duplicate_positions=dup, f10_regression_signature=bool(expl))
+    # Fiber.loss is the budget the design relies on: it must be the attenuation the span really applies at the reference frequency
+    if isinstance(obs.get('loss_prop'), float) and obs.get('ref_loss_applied') is not None:
+        if abs(obs['loss_prop'] - obs['ref_loss_applied']) > 1e-9 * max(1.0, abs(obs['ref_loss_applied'])):
+            ctx.violation('loss_property_vs_applied', f"Fiber.loss = {obs['loss_prop']:.9f} dB but a channel at the reference frequency "
+                          f"is attenuated by {obs['ref_loss_applied']:.9f} dB", cs, advertised_db=obs['loss_prop'],
+                          applied_db=obs['ref_loss_applied'])
     for i in range(len(spec['f'])):
         if obs['own_cd'] is not None and not close(af['cd'][i], b4['cd'][i] + obs['own_cd'][i], 1e-12):
             ctx.violation('cd_add', f"channel {i}: CD after {af['cd'][i]} != before {b4['cd'][i]} + span {obs['own_cd'][i]}", cs)
@@ -617,6 +646,16 @@ def drive_path(ctx, case, built):
         own_cd = None
         if isinstance(el, Fiber):
             own_cd = np.broadcast_to(el.chromatic_dispersion(si.frequency), si.frequency.shape).astype(float).tolist()
+            applied = probe_ref_loss(el)
+            try:
+                adv = float(el.loss)
+            except Exception:
+                adv = None
+            if adv is not None and applied is not None and abs(adv - applied) > 1e-9 * max(1.0, abs(applied)) and not bad:
+                bad = True
+                ctx.violation('loss_property_vs_applied', f"{el.uid}: Fiber.loss = {adv:.9f} dB (used by the design of the following "
+                              f"amplifier) but a channel at the reference frequency is attenuated by {applied:.9f} dB", cs,
+                              advertised_db=adv, applied_db=applied)
         si = call_el(path, i, si)
         af = snap(si)
         kind, par, _ = desc[i]
@@ -863,21 +902,52 @@ def drive_raman_cmp(ctx, case, sim):
     ctx.extra['raman_cmp_worst_ratio'] = max(ctx.extra['raman_cmp_worst_ratio'], max(r / t for r, t in worst.values()))
 
 
+def ref_bidirectional(alpha, cr, z, ll, p_co, p_cnt, iters=500):
+    """independent reference for RamanSolver.iterative_algorithm: the fixed point of the explicit Euler scheme on the grid z
+    with co-propagating waves integrated forward from z=0 and counter-propagating waves backward from z=L,
+        P_c(i)   = P_c(i-1) (1 + (-a_c + sum_k cr_ck P_k(i-1)) (z_i - z_{i-1})) lumped_{i-1}
+        P_n(i-1) = P_n(i)   (1 + (-a_n + sum_k cr_nk P_k(i))   (z_i - z_{i-1})) lumped_i
+    iterated to convergence (1e-14 relative)"""
+    n, nco = z.size, len(p_co)
+    dz = np.diff(z)
+    P = np.zeros((alpha.size, n))
+    P[:nco, 0] = p_co
+    P[nco:, -1] = p_cnt
+    for _ in range(iters):
+        old = P.copy()
+        for i in range(1, n):
+            g = -alpha + cr @ P[:, i - 1]
+            P[:nco, i] = P[:nco, i - 1] * (1 + g[:nco] * dz[i - 1]) * ll[i - 1]
+        for m in range(n - 1, 0, -1):
+            g = -alpha + cr @ P[:, m]
+            P[nco:, m - 1] = P[nco:, m] * (1 + g[nco:] * dz[m - 1]) * ll[m]
+        if np.max(np.abs(P - old) / np.maximum(np.abs(P), 1e-300)) < 1e-14:
+            break
+    return P
+
+
+RAMAN_ITER_TOL_DB = 5e-2     # measured on the unchanged code over 1000 cases: median 1e-10 dB, worst 1.4e-2 dB (the solver stops
+                             # at accuracy 1e-3 or residue 1e-6); a wrong step/lumped index gives 0.04 - 13 dB
+
+
 def drive_raman_pump(ctx, case, sim):
-    """TEST (not proved): counter-propagating pumps only add gain (all z), each lumped loss once at low power"""
+    """TEST (not proved): (i) the co/counter solution of RamanSolver (iterative algorithm) vs an independent Euler fixed point
+    on the SAME non-uniform grid; (ii) counter-propagating pumps only add gain (all z)"""
     from gnpy.core.science_utils import RamanSolver
     cs = strip(case)
     p, n = case['params'], case['n']
     freqs = [191.5e12 + i * 4.8e12 / n for i in range(n)]
     co = [q for q in case['pumps'] if q['propagation_direction'] == 'coprop']
     try:
-        sim.set(flag=True, method=case['method'], order=case['order'], result_spatial_resolution=10e3,
+        sim.set(flag=True, method=case['method'], order=case['order'], result_spatial_resolution=case.get('res', 10e3),
                 solver_spatial_resolution=case['step'])
         si = flat_si(freqs, case['p'])
-        with_p = RamanSolver.calculate_stimulated_raman_scattering(si, raman_fiber(p, case['pumps'])).loss_profile[:n]
+        fib = raman_fiber(p, case['pumps'])
+        srs = RamanSolver.calculate_stimulated_raman_scattering(si, fib)
+        with_p = srs.loss_profile[:n]
         # like for like: with counter-propagating pumps the signals are always integrated by the Euler sweeps of the
         # iterative algorithm, so the pump-free reference uses the Euler ('numerical') method on the same grid
-        sim.set(flag=True, method='numerical', result_spatial_resolution=10e3, solver_spatial_resolution=case['step'])
+        sim.set(flag=True, method='numerical', result_spatial_resolution=case.get('res', 10e3), solver_spatial_resolution=case['step'])
         if co:
             ref = RamanSolver.calculate_stimulated_raman_scattering(si, raman_fiber(p, co)).loss_profile[:n]
         else:
@@ -886,10 +956,35 @@ def drive_raman_pump(ctx, case, sim):
         sim.set()
     gain = 10 * np.log10(with_p / ref)
     ctx.count('raman_pump')
+    ctx.count('raman_pump_co+counter' if co else 'raman_pump_counter_only')
     if float(gain.min()) < -1e-6:
         ctx.violation('counter_pump_loss', f"counter-propagating pumps reduce a channel by {-float(gain.min()):.3e} dB somewhere "
                       f"along the span ({case['method']}, order {case['order']})", cs)
     ctx.extra['raman_pump_min_gain_db'] = min(ctx.extra.get('raman_pump_min_gain_db', 1e9), float(gain[:, -1].min()))
+    # independent reference on the same (generally non-uniform) grid
+    co_p = [q for q in fib.raman_pumps if q.propagation_direction == 'coprop']
+    cn_p = [q for q in fib.raman_pumps if q.propagation_direction == 'counterprop']
+    f_all = np.array(freqs + [q.frequency for q in co_p] + [q.frequency for q in cn_p])
+    L = fib.params.length
+    zz = np.unique(np.concatenate((fib.z_lumped_losses, solver_z(L, case['step']))))
+    ll = np.ones(zz.size)
+    for zp, v in zip(fib.z_lumped_losses, fib.lumped_losses):
+        ll[int(np.searchsorted(zz, zp))] *= v
+    if float(np.max(np.abs(np.diff(np.diff(zz))))) > 1e-6:
+        ctx.count('raman_pump_nonuniform_grid')
+    P = ref_bidirectional(fib.alpha(f_all), fib.cr(f_all), zz, ll, np.array([case['p']] * n + [q.power for q in co_p]),
+                          np.array([q.power for q in cn_p]))
+    refp = np.array([np.interp(srs.z, zz, P[j]) for j in range(P.shape[0])])
+    if not (np.all(np.isfinite(srs.power_profile)) and np.all(srs.power_profile > 0) and np.all(refp > 0)):
+        ctx.count('raman_pump_nonpositive_power_skipped')       # explicit Euler with a very coarse step can overshoot below zero
+        return
+    dev = float(np.max(np.abs(10 * np.log10(srs.power_profile / refp))))
+    ctx.extra['raman_iter_worst_dev_db'] = max(ctx.extra.get('raman_iter_worst_dev_db', 0.0), dev)
+    if not dev <= RAMAN_ITER_TOL_DB:
+        k = np.unravel_index(int(np.nanargmax(np.abs(10 * np.log10(srs.power_profile / refp)))), refp.shape)
+        ctx.violation('raman_counter_solution', f"power profile of the co/counter Raman solution differs from the Euler fixed point on the "
+                      f"same grid ({zz.size} points, step {case['step']} m, L {L:.1f} m) by {dev:.3e} dB (wave {k[0]}, z = {srs.z[k[1]]:.0f} m); "
+                      f"tolerance {RAMAN_ITER_TOL_DB} dB", cs)
 
 
 # ------------------------------------------------------------------ run
@@ -921,7 +1016,7 @@ def run(ctx):
         cases += [gen_euler_case(rng) for _ in range(ctx.scale(40, 500))]
         cases += [gen_raman_low_case(rng) for _ in range(ctx.scale(20, 300))]
         cases += [gen_raman_cmp_case(rng) for _ in range(ctx.scale(6, 60))]
-        cases += [gen_raman_pump_case(rng) for _ in range(ctx.scale(4, 40))]
+        cases += [gen_raman_pump_case(rng) for _ in range(ctx.scale(16, 200))]
     terms, post = [], []
     with Sim() as sim:
         sim.set()                                   # Raman off, default NLI
@@ -1034,7 +1129,10 @@ def run(ctx):
         'removing each method\'s zero-power attenuation: tolerance 1e-5 + 3*g*(alpha*dz + dz/L) dB (+ 4.343*(g/4.343)^2 dB for order 1), '
         'g = max |SRS gain| in dB; measured on the unchanged code: worst residual/tolerance ~0.35; (c) counter-propagating pumps '
         '(iterative algorithm) never lower any channel at any z by more than 1e-6 dB relative to the same fibre without them, both '
-        'integrated by the Euler scheme on the same grid (measured minimum on the unchanged code: 0.0 dB).',
+        'integrated by the Euler scheme on the same grid (measured minimum on the unchanged code: 0.0 dB); (d) the co/counter solution '
+        '(signals and pumps, every result z) vs an independent fixed point of the bidirectional Euler scheme on the same NON-UNIFORM grid '
+        '(random lengths, steps 100 m - 10 km, off-grid lumped losses): tolerance 5e-2 dB; measured on the unchanged code over 1000 cases: '
+        'median 1e-10 dB, worst 1.4e-2 dB (the solver stops at accuracy 1e-3).',
         'The raw difference between the numerical and perturbative methods is dominated by the Euler bias (0.018 dB per 80 km at 50 m '
         'steps, 5.4 dB at the RamanParams default solver_spatial_resolution of 10 km): the methods agree only up to that bound.',
     ]
